@@ -302,6 +302,17 @@ func runC03(w *World, r *Report) {
 		}
 	}
 	c03ReadOnlySelection(w, r)
+	// every matched node of the URL tree contributes: the loop over them is not left early
+	if gf := w.Fn(pkgFilter, "FilterTree.GetFlow"); gf == nil {
+		r.Undec("R9", "FilterTree.GetFlow", token.NoPos, "function not found")
+	} else {
+		var brk []string
+		for _, h := range loopHeadersOf(gf) {
+			brk = append(brk, loopBreaks(h)...)
+			brk = append(brk, loopExits(h, false)...)
+		}
+		r.Check(len(brk) == 0, "R9", "GetFlow/every-matched-node-consulted", gf.Pos(), "the loop over the matched nodes is never left early (a node whose flows do not qualify is skipped, it does not hide the others): %v", brk)
+	}
 	// the comparable form of a filter (the key under which quota resources share a system
 	// flow) is built field by field from the filter's own fields of the same name
 	if tc := w.Fn(pkgSCfg, "Filter.ToComparable"); tc == nil {
